@@ -28,6 +28,6 @@ Proofs/MarketProofs.vos Proofs/MarketProofs.vok Proofs/MarketProofs.required_vos
 Properties/C17.vo Properties/C17.glob Properties/C17.v.beautified Properties/C17.required_vo: Properties/C17.v Lib/Base.vo Model/Market.vo Proofs/MarketProofs.vo
 Properties/C17.vio: Properties/C17.v Lib/Base.vio Model/Market.vio Proofs/MarketProofs.vio
 Properties/C17.vos Properties/C17.vok Properties/C17.required_vos: Properties/C17.v Lib/Base.vos Model/Market.vos Proofs/MarketProofs.vos
-Extract/Extract.vo Extract/Extract.glob Extract/Extract.v.beautified Extract/Extract.required_vo: Extract/Extract.v Lib/Base.vo Lib/DecArith.vo Model/Market.vo
-Extract/Extract.vio: Extract/Extract.v Lib/Base.vio Lib/DecArith.vio Model/Market.vio
-Extract/Extract.vos Extract/Extract.vok Extract/Extract.required_vos: Extract/Extract.v Lib/Base.vos Lib/DecArith.vos Model/Market.vos
+Extract/Extract.vo Extract/Extract.glob Extract/Extract.v.beautified Extract/Extract.required_vo: Extract/Extract.v Lib/Base.vo Lib/DecArith.vo Model/English.vo Lib/FLedger.vo Model/LimitBid.vo Model/Market.vo
+Extract/Extract.vio: Extract/Extract.v Lib/Base.vio Lib/DecArith.vio Model/English.vio Lib/FLedger.vio Model/LimitBid.vio Model/Market.vio
+Extract/Extract.vos Extract/Extract.vok Extract/Extract.required_vos: Extract/Extract.v Lib/Base.vos Lib/DecArith.vos Model/English.vos Lib/FLedger.vos Model/LimitBid.vos Model/Market.vos
